@@ -59,6 +59,11 @@ def classify_known(src, obs, findings):
 
 
 def run(ctx, log):
+    # a failing line that completed nothing leaves a retained session as it was (every kind of failure, at every depth)
+    progcheck.run_failing_lines(ctx, log)
+    # the same small programs at every size around the widths the implementation encodes things in (closed-form results)
+    progcheck.run_scale(ctx, log, ['constants', 'locals', 'args', 'statements', 'nesting', 'rtnest', 'objects'])
+    progcheck.run_code_boundary(ctx, log)
     rng = ctx.rng
     vocab = noise.vocabulary()
     findings = vlib.known_findings()
